@@ -23,8 +23,8 @@ import traceback
 from sim import boot, core
 
 VERIF = boot.VERIF
-EVIDENCE_DIR = os.environ.get("VERIF_EVIDENCE_DIR") or os.path.join(VERIF, "evidence")
-REPLAY_DIR = os.environ.get("VERIF_REPLAY_DIR") or os.path.join(VERIF, "replays")
+EVIDENCE_DIR = os.path.abspath(os.environ.get("VERIF_EVIDENCE_DIR") or os.path.join(VERIF, "evidence"))
+REPLAY_DIR = os.path.abspath(os.environ.get("VERIF_REPLAY_DIR") or os.path.join(VERIF, "replays"))
 KNOWN_FINDINGS = os.path.join(VERIF, "known_findings.json")
 RUN_TIMEOUT_S = 60
 CHILD_MEMORY_LIMIT = 2 << 30
@@ -307,9 +307,19 @@ def fresh_digests(prop_id, tier, base_seed, count, hashseed):
     return json.loads(proc.stdout.strip().splitlines()[-1])
 
 
-def print_digests(prop_id, tier, base_seed, count):
+def _enter_scratch():
+    """Scratch directory of this invocation; it is also made the working directory, so that code under test that
+    gets past the storage seam with a relative path (a regression opening files some other way) litters the
+    scratch directory, not /verif."""
     scratch = "/dev/shm/verif-scratch-%d" % os.getpid()
     os.environ["VERIF_SCRATCH"] = scratch
+    os.makedirs(os.path.join(scratch, "cwd"), exist_ok=True)
+    os.chdir(os.path.join(scratch, "cwd"))
+    return scratch
+
+
+def print_digests(prop_id, tier, base_seed, count):
+    scratch = _enter_scratch()
     try:
         return _print_digests(prop_id, tier, base_seed, count)
     finally:
@@ -327,8 +337,8 @@ def _print_digests(prop_id, tier, base_seed, count):
 
 
 def replay(prop_id, path):
-    scratch = "/dev/shm/verif-scratch-%d" % os.getpid()
-    os.environ["VERIF_SCRATCH"] = scratch
+    path = os.path.abspath(path)
+    scratch = _enter_scratch()
     try:
         return _replay(prop_id, path)
     finally:
@@ -380,8 +390,7 @@ def _sensitivity_catalogue(prop_id):
 
 
 def run_check(prop_id, tier, base_seed):
-    scratch = "/dev/shm/verif-scratch-%d" % os.getpid()
-    os.environ["VERIF_SCRATCH"] = scratch
+    scratch = _enter_scratch()
     try:
         return _run_check(prop_id, tier, base_seed)
     finally:
